@@ -105,13 +105,13 @@ def interp(sess):
     return sess.interp(num="bv", bvw=W)
 
 
-def expected_fields(comp, fields, boolean):
+def expected_fields(comp, fields, boolean, size=None):
     """what unpacking must return for packed `fields`: list of alternatives (tuples of z3 terms).
     A field of width > 1 comes back masked.  For a one-bit field the code packs the truthiness of
     the value while the statement says "masked to its width": both readings are accepted (they
     differ only for values outside {0, 1})."""
     total = sum(comp)
-    size = (total + 7) // 8
+    size = (total + 7) // 8 if size is None else size
     one, zero = z3.BitVecVal(1, W), z3.BitVecVal(0, W)
     exp = []
     for w, f in zip(comp, fields):
@@ -191,6 +191,21 @@ def check_format_(sess, comp, into_variants):
         prove_paths(sess, KEY_RT, paths, claim, wrong,
                     lambda m, rev=rev: dict(op="roundtrip", fmt=fmt, fields=fvals(m), reverse=rev),
                     "fmt=%r reverse=%s" % (fmt, rev))
+
+    # explicit size one byte larger than needed: the padding field grows by eight zero bits
+    if total <= 24:
+        big = size + 1
+
+        def thunk_s(I):
+            packed = I.call(B.packify, [fmt, list(fields)], dict(size=big))
+            return packed, I.call(B.unpackify, [fmt, list(packed)], dict(boolean=True, size=big))
+        paths = A.explore(lambda: interp(sess), thunk_s)
+        prove_paths(sess, KEY_RT, paths,
+                    lambda r: z3.And([z3.BoolVal(len(r[0]) == big)] + [is_byte(x) for x in r[0]] +
+                                     [fields_ok(r[1], expected_fields(comp, fields, True, big))]),
+                    lambda r: z3.BoolVal(len(r[0]) == big + 1),
+                    lambda m: dict(op="roundtrip", fmt=fmt, fields=fvals(m), reverse=False, size=big),
+                    "fmt=%r size=%d" % (fmt, big))
 
     # byte-order variants are mirror images
     def thunk2(I):
@@ -503,10 +518,10 @@ def ob_bin(sess, params):
 
 # ----------------------------------------------------------------------------- replay on the real functions
 
-def ref_unpacked(comp, fields, boolean):
+def ref_unpacked(comp, fields, boolean, size=None):
     """per field the set of admissible results (both readings of a one-bit field, see expected_fields)"""
     total = sum(comp)
-    size = (total + 7) // 8
+    size = (total + 7) // 8 if size is None else size
     out = []
     for w, f in zip(comp, fields):
         if w == 1:
@@ -527,6 +542,18 @@ def replay(vals, params):
             fmt, fields = vals["fmt"], vals["fields"]
             comp = [int(x) for x in fmt.split()]
             size = (sum(comp) + 7) // 8
+        if op == "roundtrip" and vals.get("size") is not None:
+            big = vals["size"]
+            packed = B.packify(fmt, list(fields), size=big)
+            if len(packed) != big:
+                return ("fail", KEY_RT, "packify(%r, %r, size=%d) has %d bytes" % (fmt, fields, big, len(packed)))
+            for boolean in (False, True):
+                un = B.unpackify(fmt, packed, boolean=boolean, size=big)
+                want = ref_unpacked(comp, fields, boolean, big)
+                if len(un) != len(want) or not all(any(A.same_value(u, a) for a in alts) for u, alts in zip(un, want)):
+                    return ("fail", KEY_RT, "unpackify(%r, packify(%r, %r, size=%d)=%s, boolean=%s, size=%d) -> %r, masked fields are %r"
+                            % (fmt, fmt, fields, big, list(packed), boolean, big, un, want))
+            return ("pass", KEY_RT, "")
         if op == "roundtrip":
             rev = vals["reverse"]
             packed = B.packify(fmt, list(fields), reverse=rev)
@@ -617,18 +644,19 @@ def obligations(tier):
         K1, K2 = 16, 32
         packs = [("pack/w00-12/s%02dof%02d" % (k, K1), dict(shard=k, shards=K1, tmax=12, full_upto=12)) for k in range(K1)]
         packs += [("pack/w13-14/s%02dof%02d" % (k, K2), dict(shard=k, shards=K2, tmin=13, tmax=14, full_upto=12)) for k in range(K2)]
+    x = dict(xcheck=(tier == "thorough"), xcheck_max=2)
     for name, prm in packs:
-        obs.append(Ob(name, run(ob_pack), params=prm, kind="e2", replay=replay, budget=900 if tier == "quick" else 3000,
+        obs.append(Ob(name, run(ob_pack), params=dict(x, **prm), kind="e2", replay=replay, budget=900 if tier == "quick" else 3000,
                       bounds=dict(total_width=(prm.get("tmin", 0), prm["tmax"]), fields="40-bit symbolic", reverse="both",
                                   plus="117 multi-byte formats (all of width 9..16 with <= 2 fields, nine of 3..4 bytes)" if prm.get("wide") else "",
                                   boolean="both", into_offsets="0..2 (reduced set above width %d)" % prm["full_upto"])))
     t = tier == "thorough"
-    obs.append(Ob("bytes", run(ob_bytes), params=dict(smax=4), kind="e2", replay=replay, budget=600,
+    obs.append(Ob("bytes", run(ob_bytes), params=dict(x, smax=4), kind="e2", replay=replay, budget=600,
                   bounds=dict(size="0..4", n="40-bit symbolic (domain n >= 0; strict: n < 256^size)", reverse="both", strict="both")))
-    obs.append(Ob("signext", run(ob_signext), params=dict(nmax=64), kind="e2", replay=replay, budget=300,
+    obs.append(Ob("signext", run(ob_signext), params=dict(x, nmax=64), kind="e2", replay=replay, budget=300,
                   bounds=dict(n="1..64", x="all n-bit values")))
-    obs.append(Ob("hex", run(ob_hex), params=dict(kmax=4 if t else 3), kind="e2", replay=replay, budget=600,
+    obs.append(Ob("hex", run(ob_hex), params=dict(x, kmax=4 if t else 3), kind="e2", replay=replay, budget=600,
                   bounds=dict(bytes="0..%d" % (4 if t else 3), hex_string="lower-case, even length up to %d" % (8 if t else 6))))
-    obs.append(Ob("bin", run(ob_bin), params=dict(smax=12 if t else 8), kind="e2", replay=replay, budget=600,
+    obs.append(Ob("bin", run(ob_bin), params=dict(x, smax=12 if t else 8), kind="e2", replay=replay, budget=600,
                   bounds=dict(size="1..%d" % (12 if t else 8))))
     return obs
